@@ -46,6 +46,11 @@ def ev(e, c, r, callee=None):
         if isinstance(e[1], int):
             return e[1]
         raise Shape("constant %r" % (e[1],))
+    if k == "kc" and isinstance(e[2], int) and not isinstance(e[2], bool):
+        return e[2]                              # a named constant (`const CASE_BIT: u8 = b'a' ^ b'A'`)
+    if k == "un" and e[1] == "Not":
+        v = ev(e[2], c, r, callee)
+        return (~v) & 0xFF if not isinstance(strip_casts(e[2])[1] if strip_casts(e[2])[0] == "k" else 0, bool) else int(not v)
     if k == "cast":
         return ev(e[1], c, r, callee)
     if k == "bin":
